@@ -1,16 +1,25 @@
 """C16 -- output files hold what was computed and reload to the same model.
 
-Spec: spec/Output.tla (value kinds, Store with the code's type dispatch, Canon = documented flattening,
-      RoundTrip; SpectrumKeys per binner x output size, exact grid relations; ModelFile/Rebuild),
-      spec/MC_Output.tla (exhaustive dictionaries + export), spec/Trace_Output.tla (binding B),
+Spec: spec/Output.tla (value kinds, strings over the whole value alphabet in token form, Store with the code's type
+      dispatch, Canon = documented flattening, RoundTrip; SpectrumKeys per binner x output size, TauAt(caller, place,
+      binner, size) for every place the output size is consumed and the integer arithmetic of the callers (SizeArith),
+      exact grid relations; ModelFile/Rebuild),
+      spec/MC_Output.tla (exhaustive dictionaries over the catalogue of value kinds and over the string-alphabet
+      catalogue + export), spec/Trace_Output.tla (binding B: dict / tau / grid events),
+      spec/MC_OutputWr.tla (which input class of constructor values exposes every unfaithful write()),
       spec/MC_OutputReb.tla over the GENERATED module OutputReg (constructor keywords from inspect.signature,
-      written dataset names observed in the files the components' write() produced).
+      written dataset names observed in the files the components' write() produced, the component sweep).
 Binding A: every exported dictionary is stored with HDF5Output.store_dictionary in a temporary file, read back
       with h5py and compared with the specification's tree; spectrum dictionaries of the three binners x three
       output sizes from a real model run; model write -> taurex_hdf5_to_model for a covering set of component
-      combinations (types, constructor values observed by recorders, spectrum at 1e-12).
-Binding B: random nested dictionaries (depth <= 3) stored by the real code, the file tree validated by TLC
-      against Canon, exact grid relations validated on dyadic grids; canary.
+      combinations and for the component sweep: EVERY built-in component with a distinct non-default value for
+      every constructor keyword, then one keyword at a time (types, constructor values observed by recorders,
+      spectrum at 1e-12).
+Binding B: random nested dictionaries (depth <= 3, strings over the alphabet) stored by the real code, the short form /
+      BibTeX strings of every built-in class that carries citations, the Bibliography block of real runs of the taurex
+      program, and the optical-depth datasets found in every group written through direct calls, store_contributions,
+      the taurex program (forward model with 4 binning set-ups, retrieval) and Optimizer.generate_solution for the three
+      output sizes -- all validated by TLC; exact grid relations on dyadic grids; canaries.
 """
 import itertools
 import json
@@ -497,13 +506,21 @@ def sweep_variants(row):
     return out
 
 
-def sweep_cases(table, pick=None):
+def sweep_cases(table, models=(None,)):
+    """models: None = the model of the row (a transmission model unless the row says otherwise); a (class, keywords) pair
+    repeats every non-model row inside that forward model."""
     cases = []
-    for row in table:
-        for name, kw in sweep_variants(row):
-            if pick is not None and not pick(row, name):
+    for model in models:
+        for row in table:
+            if model is not None and (row['kind'] == 'model' or 'model' in row['over']):
                 continue
-            cases.append(dict(tag='sweep|%s|%s' % (row['cls'], name), vec=dict(sweep=row['cls'], variant=name), desc=sweep_desc(row, kw), focus=row['cls']))
+            for name, kw in sweep_variants(row):
+                desc = sweep_desc(row, kw)
+                vec = dict(sweep=row['cls'], variant=name)
+                if model is not None:
+                    desc['model'] = model
+                    vec['in_model'] = list(model)
+                cases.append(dict(tag='sweep|%s|%s%s' % (row['cls'], name, '|in ' + model[0] if model else ''), vec=vec, desc=desc, focus=row['cls']))
     return cases
 
 
@@ -1175,13 +1192,17 @@ def run(ctx):
                          - {row['cls'] for row in table} - set(NOT_SWEPT))
         if missing:
             raise Machinery('built-in component classes without a sweep entry: %s' % missing)
-        cases = [combo_case(c) for c in chosen] + sweep_cases(table)
+        cases = [combo_case(c) for c in chosen] + sweep_cases(table, (None,) if q else (None, ('EmissionModel', dict(ngauss=3)), ('DirectImageModel', dict(ngauss=5))))
         written = run_model_roundtrips(ctx, cases, tmp, classes)
         ctx.note('%d models written and rebuilt (%d combinations, %d sweep variants of %d component classes)' % (
             len(cases), len(chosen), len(cases) - len(chosen), len(table)))
         lap('model roundtrips')
         # 6. ModelFile / Rebuild: constructor keywords that no write() stores; the sweep covers every keyword
-        sd = make_spec_dir(gen_output_reg(classes, written, sweep_given(table, classes)))
+        reg_text = gen_output_reg(classes, written, sweep_given(table, classes))
+        if os.environ.get('C16_SNAPSHOT'):          # refresh the committed snapshot spec/OutputReg.tla (documentation only)
+            with open(os.path.join(SPEC, 'OutputReg.tla'), 'w') as f:
+                f.write(reg_text)
+        sd = make_spec_dir(reg_text)
         rb = run_tlc('MC_OutputReb', 'MC_OutputReb.cfg', spec_dir=sd, workers=1)
         ctx.add_tlc('rebuild-table', rb, counts=False)
         rows = rb.tagged('REB')
@@ -1239,7 +1260,7 @@ def replay(ctx, violations):
                 v['contribs'] = tuple(v['contribs'])
                 run_model_roundtrips(ctx, [combo_case(v)], tmp, classes)
             elif 'sweep' in v:
-                run_model_roundtrips(ctx, [c for c in sweep_cases(table) if c['vec'] == dict(sweep=v['sweep'], variant=v['variant'])], tmp, classes)
+                run_model_roundtrips(ctx, [c for c in sweep_cases(table, (tuple(v['in_model']) if v.get('in_model') else None,)) if c['vec'].get('variant') == v['variant'] and c['vec']['sweep'] == v['sweep']], tmp, classes)
             elif v.get('tau') and 'tau' not in done:
                 done.add('tau')
                 ev, bib = run_size_callers(ctx, tmp, classes, rng, tables.tagged('TAU')[0])
